@@ -234,13 +234,13 @@ def seeded_variants(prop):
 
 
 FILE_PROPS = {
-    "src/bldfm/solver.py": ["C01", "C02", "C03", "C04", "C05", "C06", "C07", "C10", "C11", "C12", "C15"],
+    "src/bldfm/solver.py": ["C01", "C02", "C03", "C04", "C05", "C06", "C07", "C08", "C10", "C11", "C12", "C14", "C15"],
     "src/bldfm/interface.py": ["C08", "C13", "C14", "C15", "C16"],
     "src/bldfm/config_parser.py": ["C08", "C13", "C14", "C16", "C17"],
     "src/bldfm/cache.py": ["C15"],
     "src/bldfm/io.py": ["C18"],
     "src/bldfm/pbl_model.py": ["C08", "C09", "C12"],
-    "src/bldfm/utils.py": ["C08", "C13", "C20"],
+    "src/bldfm/utils.py": ["C02", "C08", "C13", "C20"],
     "src/bldfm/ffm_kormann_meixner.py": ["C19"],
     "src/bldfm/plotting/footprint.py": ["C20"],
     "src/bldfm/plotting/_geo.py": ["C17"],
